@@ -47,7 +47,7 @@ func init() {
 		Rule: "pairs of root containers A, B over a shared 6-key pool (B independent, or A after 1-4 local edits: key added/removed, leaf changed, kind swapped, list grown/shrunk/permuted), nulls with probability 0.2, lists of containers and lists of lists, both list strategies, B optionally sealed; overlay cases add 2-4 such documents as layers and read Merged(opts); config cases send defaults plus 1-3 override sources (YAML file, JSON file, map, dom container) through fluent.ConfigHelper. A case is non-trivial when the two sides (some two layers / sources) share at least one key; distinct = distinct canonical case JSON (hash).",
 		Assumptions: []string{
 			"scalars are NaN-free and -0-free; a leaf is null iff its Go value is nil (wire scalar {nil,<nil>})",
-			"keys come from a path-safe pool (no key ends in an index group: the API invariant discussed under D26)",
+			"keys are arbitrary strings (a path-safe pool, and a second pool with dots, slashes, spaces, '~', brackets, non-ASCII text and the empty key); no key ends in an index group `[digits]`: the API invariant discussed under D26",
 			"ConfigHelper.Result() passes through a yaml.v3 encode/decode round trip; expected values are normalised through the same round trip (external library, contract validated by correspondence only)",
 		}})
 	evals["C04"] = c04Eval
@@ -111,6 +111,7 @@ func c04Run(c *Ctx) {
 		}
 		c.Do("config", c04Config{Defaults: def, Sources: srcs})
 	}
+	c04RunKeys(c, opt) // c04_keys.go: the same three routes over keys that are arbitrary strings
 	if c.Thorough() && !c.searchMode {
 		all := c04EnumDocs()
 		c.Note("exhaustive scope: %d root containers of size <= 4 over keys {a,b}; all ordered pairs x both strategies", len(all))
@@ -369,6 +370,8 @@ func c04Eval(c *Ctx, kind string, raw []byte) {
 		c.Direct("self-merge-meld-identity", canon(self) == canon(p.A) && eqSelf, self)
 		c.Corr("merge", rw, c.Model("merge", map[string]any{"a": p.A, "b": p.B, "opt": p.Opt}))
 		c.Corr("merge(AsMap)", rmap, c.Model("merge", map[string]any{"a": am0, "b": bm0, "opt": p.Opt}))
+	case "pair-frommap":
+		c04EvalFromMap(c, raw) // c04_keys.go
 	case "overlay":
 		var p c04Overlay
 		if err := json.Unmarshal(raw, &p); err != nil {
